@@ -300,6 +300,62 @@ def main():
             r = out(lambda: inst.describe(v))
             if not (isinstance(r, tuple) and r[1] is inst and r[0] == ("int" if isinstance(v, int) else "obj")):
                 fail("ovld_attribute_binds_falsy_instances_too", empty=len(inst) == 0, value=v, got=repr(r)[:80])
+    # a later same-named definition carrying its own @ovld(...) decorator (e.g. a priority) joins the same method
+    def later_decorated(base, extend):
+        class K(base):
+            @(extend_super if extend else ovld)
+            def work(self, x: int):
+                return ("int", self)
+
+            def work(self, x: str):
+                return ("str", self)
+
+            @ovld(priority=10)
+            def work(self, x: object):
+                return ("wrap", call_next(x))
+
+        return K
+
+    class WorkBase(OvldBase):
+        def work(self, x: float):
+            return ("float", self)
+
+    for label, base, extend in (("plain", OvldBase, False), ("extend_super", WorkBase, True)):
+        n += 1
+        try:
+            K = later_decorated(base, extend)
+            k = K()
+            got = [out(lambda: k.work(1)), out(lambda: k.work("a"))] + ([out(lambda: k.work(1.5))] if extend else [])
+            want = [("wrap", ("int", k)), ("wrap", ("str", k))] + ([("wrap", ("float", k))] if extend else [])
+            if got != want:
+                fail("later_definition_with_its_own_decorator_joins_the_method", body=label, got=repr(got)[:160])
+        except BaseException as e:
+            fail("later_definition_with_its_own_decorator_joins_the_method", body=label, error=f"{type(e).__name__}: {str(e)[:60]}")
+    # value-dependent overloads of a METHOD that all decline: the fall-through to the less specific overload passes self
+    from ovld.dependent import Dependent, EndsWith, StartsWith
+
+    class Words(OvldBase):
+        def f(self, x: Dependent[str, StartsWith["a"]]):
+            return ("a*", self)
+
+        def f(self, x: Dependent[str, EndsWith["z"]]):
+            return ("*z", self)
+
+        def f(self, x: str):
+            return ("str", self)
+
+    class MoreWords(Words):
+        @extend_super
+        def f(self, x: Dependent[str, StartsWith["b"]]):
+            return ("b*", self)
+
+    for cls in (Words, MoreWords):
+        inst = cls()
+        for v, want in (("abc", "a*"), ("xyz", "*z"), ("hello", "str"), ("bcd", "b*" if cls is MoreWords else "str")):
+            n += 1
+            r = out(lambda: inst.f(v))
+            if not (isinstance(r, tuple) and r[0] == want and r[1] is inst):
+                fail("value_dependent_overloads_of_a_method_fall_through_with_self", cls=cls.__name__, value=v, got=repr(r)[:80], want=want)
     print(json.dumps(dict(evaluations=n, failing=list(failing.values()))))
     return 1 if failing else 0
 
